@@ -48,6 +48,12 @@ CHECKS = {
         text="PROVED for all strings: (1) in parse_docstring_into_header_args_footer the header, section and footer slices of the original concatenate to the original whenever token-start <= token-last (or either is absent), and the returned section is that slice unless the re-indent branch ran; (2) _get_token_start_idx returns an index in [-1, len]; (3) header_args_footer_to_str keeps the header as a prefix and the footer as a suffix, byte for byte. "
              "BOUNDED only (not proved): token-start <= token-last between the two independent scanners, the returned triple, and that every header line survives conversion between the three styles (enumerated token strings and constructed docstrings). Two known findings (re-indented section; Raises: off-by-one).",
         note="Assumed contract: _get_token_last_idx returns >= -1 and is deterministic (checked at run time over the bounded domain). E1's Python-semantics model (DESIGN §3)."),
+    "C06": dict(
+        category="other", design_ref="DESIGN.md §5 C06",
+        technique="contract-based deductive verification of param2json_schema_property (E1: record with presence bits, Seq view of `required`, z3) for the required/Optional lemma; run-time contracts over IR(n) with the 2020-12 meta-schema as oracle for the rest",
+        text="PROVED for all inputs: param2json_schema_property appends the name to `required` exactly when the type string does not start with 'Optional[', leaves `required` otherwise untouched (frame), turns a truthy doc into the description and never leaves a `typ` key. "
+             "BOUNDED only: the whole-document clauses (required list of json_schema() in order, meta-schema validity, defaults validate against their property schema, Literal pattern accepts exactly the members, serialisable, parse-back equality) over the JSON-representable slice of IR(n).",
+        note="The quantified lemma for json_schema()'s loop over params (required == filter in order) is not proved, only checked in the bounded part. jsonschema's Draft202012Validator is the oracle for validity."),
 }
 
 NA_REASON = "check not built yet (work in progress; see DESIGN.md for the plan)"
